@@ -149,6 +149,9 @@ def handle (line : String) : Except String Json := do
       | some ti => .arr #[jOptName ti.integration, jNames ti.table, .arr (ti.aliases.map jNames).toArray, ti.bareName]
     return Json.mkObj [
       ("tableInfo", jInfo (resolveTable c parts alias false)),
+      ("dbt", jNames (dbtSource c (← match j.getObjVal? "dbtInt" with
+        | .ok v => getOptName v
+        | .error _ => pure none) parts)),
       ("simple", jRes (resolveSimple c parts)),
       ("join", jRes (resolveJoin c parts)),
       ("routeSimple", jRouted (routeSimple c parts)),
